@@ -137,15 +137,6 @@ func panicError(r interface{}) error {
 
 type promiseStack []*Promise
 
-func inactive(exited []*Promise, p *Promise) bool {
-	for _, e := range exited {
-		if e == p {
-			return true
-		}
-	}
-	return false
-}
-
 func (s *promiseStack) pop() *Promise {
 	var p *Promise
 	p, *s, (*s)[len(*s)-1] = (*s)[len(*s)-1], (*s)[:len(*s)-1], nil
@@ -162,14 +153,20 @@ func (s *promiseStack) popUntil(p *Promise) {
 
 func (s *promiseStack) recover(err error) error {
 	// look for an ancestor promise with a recovering function that is applicable to the error.
-	var exited []*Promise
+	var exited map[*Promise]struct{} // A set: there may be as many of them as iterations of a loop.
 	for len(*s) > 0 {
 		pop := s.pop()
 		if pop.exited != nil {
 			// The error occurred after the goal of that catch/3 had exited. It's no longer active.
-			exited = append(exited, pop.exited)
+			if exited == nil {
+				exited = map[*Promise]struct{}{}
+			}
+			exited[pop.exited] = struct{}{}
 		}
-		if pop.recover == nil || inactive(exited, pop) {
+		if pop.recover == nil {
+			continue
+		}
+		if _, ok := exited[pop]; ok {
 			continue
 		}
 		if q := pop.recover(err); q != nil {
